@@ -28,7 +28,10 @@ CONSTANTS Keys, Writers,
           Depth0,      \* 0 KeepAll, d KeepLast(d)
           MaxArr, MaxSteps,
           Forms,       \* subset of {"take","read","take_next","read_next","take_inst","read_inst"}
-          Kinds,       \* subset of {"V", "D", "X"}: values, disposes by key, unintelligible changes (C09)
+          Kinds,       \* subset of {"V", "D", "X", "KD"}: values, disposes by key, unintelligible changes (C09); "KD" (un-keyed
+                       \* topic only): DATA with the key flag, a dispose that the un-keyed reader cannot show
+          NoKey,       \* the reader is the wrapper for an un-keyed topic (no_key::DataReader): one instance, the keyed
+                       \* reader underneath takes the disposes out of the cache, the wrapper drops them from the result
           Retransmit,  \* a reliable reader; a change may be lost and arrive after the writer's next one (lower sequence
                        \* number received later): the cache is ordered by reception time, the result by sequence number
           GenK
@@ -44,9 +47,10 @@ VARIABLES
   iSamples,  \* key -> ids in instance_samples (entries of taken samples stay until evicted)
   nextSn,    \* writer -> next sequence number
   rts,       \* id -> position in the order of reception (the cache key; = id unless retransmitted)
+  nkd,       \* ids of key-only DATA on the un-keyed topic: samples of kind Dispose to the keyed reader underneath
   steps, trail
 
-implVars == <<pend, cache, readf, sgen, iState, iGen, iAcc, iSamples, nextSn, rts>>
+implVars == <<pend, cache, readf, sgen, iState, iGen, iAcc, iSamples, nextSn, rts, nkd>>
 vars == <<scVars, implVars, steps, trail>>
 
 Lt(a, b) == a < b
@@ -62,7 +66,7 @@ Init ==
   /\ taken = {} /\ wasRead = {} /\ seenOut = {} /\ errs = 0 /\ fzRead = {} /\ fzTaken = {} /\ viol = {}
   /\ pend = <<>> /\ cache = {} /\ readf = {} /\ sgen = <<>>
   /\ iState = <<>> /\ iGen = <<>> /\ iAcc = <<>> /\ iSamples = <<>>
-  /\ nextSn = [w \in Writers |-> 1] /\ rts = <<>>
+  /\ nextSn = [w \in Writers |-> 1] /\ rts = <<>> /\ nkd = {}
   /\ steps = 0 /\ trail = <<>>
 
 Log(a) == steps' = steps + 1 /\ trail' = Append(trail, a)
@@ -70,12 +74,15 @@ Log(a) == steps' = steps + 1 /\ trail' = Append(trail, a)
 (* ------------------------------------------------------- a change arrives *)
 Arrive(w, k, kind) ==
   /\ Len(arr) < MaxArr
-  /\ AbsArrive(w, nextSn[w], k, kind, TRUE)
+  /\ (kind = "KD") => NoKey
+  \* to the application of an un-keyed topic a key-only DATA is a change that cannot be turned into a sample
+  /\ AbsArrive(w, nextSn[w], k, IF kind = "KD" THEN "X" ELSE kind, TRUE)
   /\ pend' = Append(pend, Len(arr) + 1)
   /\ nextSn' = [nextSn EXCEPT ![w] = @ + 1]
   /\ rts' = FPut(rts, Len(arr) + 1, Len(arr) + 1)
+  /\ nkd' = IF kind = "KD" THEN nkd \cup {Len(arr) + 1} ELSE nkd
   /\ UNCHANGED <<cache, readf, sgen, iState, iGen, iAcc, iSamples>>
-  /\ Log([a |-> "Arrive", w |-> w, k |-> k, kind |-> CASE kind = "V" -> "V" [] kind = "D" -> "DK" [] OTHER -> "UD", hold |-> FALSE])
+  /\ Log([a |-> "Arrive", w |-> w, k |-> k, kind |-> CASE kind = "V" -> "V" [] kind = "D" -> "DK" [] kind = "KD" -> "KD" [] OTHER -> "UD", hold |-> FALSE])
 
 \* Two consecutive changes of one writer; the first is lost and retransmitted after the second.  The reliable reader
 \* hands both over only when the first has arrived, in sequence-number order; the cache keeps them by reception time.
@@ -94,7 +101,7 @@ ArrivePair(w, k1, kind1, k2, kind2) ==
         /\ pend' = pend \o <<n + 1, n + 2>>
   /\ nextSn' = [nextSn EXCEPT ![w] = @ + 2]
   /\ UNCHANGED <<depth, lastAcc, accHi, taken, wasRead, seenOut, errs, fzRead, fzTaken, viol>>
-  /\ UNCHANGED <<cache, readf, sgen, iState, iGen, iAcc, iSamples>>
+  /\ UNCHANGED <<cache, readf, sgen, iState, iGen, iAcc, iSamples, nkd>>
   /\ steps' = steps + 1
   /\ trail' = trail \o << [a |-> "Arrive", w |-> w, k |-> k1, kind |-> IF kind1 = "V" THEN "V" ELSE "DK", hold |-> TRUE],
                            [a |-> "Arrive", w |-> w, k |-> k2, kind |-> IF kind2 = "V" THEN "V" ELSE "DK", hold |-> FALSE] >>
@@ -125,7 +132,7 @@ AddSample(st, id) ==
 RECURSIVE Fill(_, _, _)
 Fill(st, ids, i) ==
   IF i > Len(ids) THEN <<st, Len(ids), FALSE>>
-  ELSE IF arr[ids[i]].kind = "X" THEN <<st, i, TRUE>>
+  ELSE IF arr[ids[i]].kind = "X" /\ ids[i] \notin nkd THEN <<st, i, TRUE>>
   ELSE Fill(AddSample(st, ids[i]), ids, i + 1)
 
 (* ----------------------------------------------------------------- a call *)
@@ -153,9 +160,10 @@ Info(st, id) ==
 Call(form, max, cond, inst, dir) ==
   /\ form \in Forms
   /\ LET instForm == form \in {"take_inst", "read_inst"}
-         removing == form \in {"take", "take_next", "take_inst"}
-         effMax  == IF form \in {"take_next", "read_next"} THEN 1 ELSE max
-         effCond == IF form \in {"take_next", "read_next"} THEN "notread" ELSE cond
+         removing == form \in {"take", "take_next", "take_inst", "nk_take", "nk_take_next"}
+         effMax  == IF form \in {"take_next", "read_next", "nk_take_next"} THEN 1 ELSE max
+         effCond == IF form \in {"take_next", "read_next", "nk_take_next"} THEN "notread" ELSE cond
+         nk == form \in {"nk_take", "nk_read", "nk_take_next"}
          st0 == [cache |-> cache, sgen |-> sgen, iState |-> iState, iGen |-> iGen, iAcc |-> iAcc, iSamples |-> iSamples]
          fl == Fill(st0, pend, 1)
          st == fl[1]
@@ -164,7 +172,10 @@ Call(form, max, cond, inst, dir) ==
          sel == IF key = -2 \/ err THEN <<>> ELSE Selected(st, effCond, key)
          keysq == SubSeq(sel, 1, IF Len(sel) < effMax THEN Len(sel) ELSE effMax)
          ids == {keysq[i] : i \in DOMAIN keysq}
-         out == [i \in DOMAIN keysq |-> Info(st, keysq[i])]
+         out0 == [i \in DOMAIN keysq |-> Info(st, keysq[i])]
+         \* no_key::DataReader: `if let Some(s) = DataSample::from_with_key(ks) { result.push(s) }` - the disposes were
+         \* counted against max and have left the cache (or are marked read), but are not shown
+         out == IF nk THEN SelectSeq(out0, LAMBDA o : o.id \notin nkd) ELSE out0
          \* mark_instances_viewed: the highest generation accessed per instance, forward only
          accK == {arr[i].k : i \in ids}
          newAcc == [k \in DOMAIN st.iAcc |->
@@ -177,16 +188,18 @@ Call(form, max, cond, inst, dir) ==
         /\ readf' = IF removing THEN readf ELSE readf \cup ids
         /\ sgen' = st.sgen /\ iState' = st.iState /\ iGen' = st.iGen /\ iSamples' = st.iSamples
         /\ iAcc' = newAcc
+        \* un-keyed: no SampleInfo judged, no view state, and no completeness (take(1) may come back empty in front of a value)
         /\ AbsCall(IF err THEN "err" ELSE "ok", out, effMax, effCond, IF instForm THEN <<dir, inst>> ELSE <<"all", -1>>,
-                   removing, ~removing, TRUE, TRUE, TRUE)
-  /\ UNCHANGED <<nextSn, rts>>
+                   removing, ~removing, ~nk, ~nk, ~nk)
+  /\ UNCHANGED <<nextSn, rts, nkd>>
   /\ Log([a |-> "Call", form |-> form, max |-> max, cond |-> cond, inst |-> inst, dir |-> dir])
 
 Next ==
   \/ \E w \in Writers, k \in Keys, kind \in Kinds : Arrive(w, k, kind)
   \/ \E w \in Writers, k1, k2 \in Keys, kind1, kind2 \in Kinds \ {"X"} : ArrivePair(w, k1, kind1, k2, kind2)
   \/ \E form \in Forms, max \in {1, 1000}, cond \in {"any", "notread"} :
-       \/ form \in {"take", "read"} /\ Call(form, max, cond, -1, "this")
+       \/ form \in {"take", "read", "nk_take", "nk_read"} /\ Call(form, max, cond, -1, "this")
+       \/ form = "nk_take_next" /\ max = 1 /\ cond = "notread" /\ Call(form, 1, "notread", -1, "this")
        \/ form \in {"take_next", "read_next"} /\ max = 1 /\ cond = "notread" /\ Call(form, 1, "notread", -1, "this")
        \/ form \in {"take_inst", "read_inst"} /\ \E inst \in Keys \cup {-1}, dir \in {"this", "next"} :
             (inst = -1 => dir = "this") /\ Call(form, max, cond, inst, dir)
@@ -197,13 +210,13 @@ View == <<scVars, implVars, steps>>
 
 \* refinement facts relating the code's bookkeeping to the abstract state
 Inv_CacheIsAvailable == cache \subseteq (DOMAIN arr) \ taken
-Inv_ReadFlags == readf \cap cache = wasRead \cap cache
+Inv_ReadFlags == (readf \cap cache) \ nkd = wasRead \cap cache
 \* C09 as a state property of the model: whatever is intelligible and behind no unconsumed change is in the cache or was
 \* handed out (nothing is lost behind a bad change)
 Inv_NothingLostBehindBadChange ==
   \A i \in DOMAIN arr : (arr[i].kind # "X" /\ i \notin {pend[j] : j \in DOMAIN pend} /\ Depth0 = 0) => (i \in cache \/ i \in taken)
-Inv_InstanceState == pend = <<>> => (DOMAIN iState = DOMAIN ist /\ \A k \in DOMAIN iState : iState[k] = ist[k] /\ iGen[k] = dgen[k])
+Inv_InstanceState == (pend = <<>> /\ ~NoKey) => (DOMAIN iState = DOMAIN ist /\ \A k \in DOMAIN iState : iState[k] = ist[k] /\ iGen[k] = dgen[k])
 
 GenEdge == (GenK > 0 /\ RandomElement(1..GenK) = 1) =>
-             PrintT("REPLAY " \o ToJson([reliable |-> Retransmit, depth |-> Depth0, mode |-> "dr", acts |-> trail']))
+             PrintT("REPLAY " \o ToJson([reliable |-> Retransmit, depth |-> Depth0, mode |-> IF NoKey THEN "nk_dr" ELSE "dr", acts |-> trail']))
 =============================================================================
